@@ -816,7 +816,10 @@ def check_mpc_variants(ctx, state, rng):
     try:
         with warnings.catch_warnings():
             warnings.simplefilter('ignore')
-            x = np.asarray(solve(*mpc(A, b, S=np.array(S), M=np.array(M), T=sp.csr_matrix(T), g=g)))
+            red = mpc(A, b, S=np.array(S), M=np.array(M), T=sp.csr_matrix(T), g=g)
+            if np.linalg.cond(red[0].toarray()) > 1e6:
+                return        # the constrained problem itself is (nearly) singular: nothing to compare
+            x = np.asarray(solve(*red))
     except Exception as e:  # noqa: BLE001
         ctx.fail('mpc:variant:raises', f'solve(*mpc(...)) raises {e!r} ({"complex" if cplx else "real"} data, {fmt} matrix)', rep)
         return
